@@ -1,7 +1,515 @@
-use crate::case::Case;
-use crate::fault::Fault;
-use crate::run::Failure;
+//! Damage engine (C08, C09, C10, C12): images are damaged between incarnations and recovered
+//! with the real `open`.
+use std::collections::{BTreeMap, BTreeSet};
+use std::rc::Rc;
 
-pub fn evaluate_damage(_prop: &str, _case: &Case, _fault: &Fault) -> Vec<Failure> {
-    Vec::new()
+use crate::case::Case;
+use crate::crash::{batch_atomicity, open_fail_text, recover};
+use crate::fault::{DamageOp, Fault};
+use crate::model::{Obs, Op, Outcome, Policy, Rec};
+use crate::prng::Rng;
+use crate::run::{Driver, Failure};
+use crate::simfs::{wal_name, Image, Node, BLOCK, FILE_BYTES};
+use crate::walparse::{encode_batch, encode_entry, parse, EntryKind, Parsed, WalBuilder, HDR};
+use crate::world::OpenFail;
+
+// ------------------------------------------------------------------ applying damage
+
+fn wal_names_sorted(image: &Image) -> Vec<String> {
+    crate::walparse::wal_files(image).into_iter().map(|f| f.0).collect()
+}
+
+fn file_mut<'a>(image: &'a mut Image, names: &[String], file: usize) -> Option<&'a mut Vec<u8>> {
+    let name = names.get(file)?;
+    match image.get_mut(name)? {
+        Node::File(data) => Some(Rc::make_mut(data)),
+        _ => None,
+    }
+}
+
+pub fn apply_damage(image: &Image, ops: &[DamageOp]) -> Image {
+    let mut img = image.clone();
+    for op in ops {
+        let names = wal_names_sorted(&img);
+        match op {
+            DamageOp::Flip { file, off, bit } => {
+                if let Some(d) = file_mut(&mut img, &names, *file) {
+                    if *off < d.len() {
+                        d[*off] ^= 1 << (bit % 8);
+                    }
+                }
+            }
+            DamageOp::Garbage { file, off, len, seed } => {
+                if let Some(d) = file_mut(&mut img, &names, *file) {
+                    let mut rng = Rng::new(*seed);
+                    let end = (*off + *len).min(d.len());
+                    for b in d[(*off).min(end)..end].iter_mut() {
+                        *b = rng.next_u64() as u8;
+                    }
+                }
+            }
+            DamageOp::Zero { file, off, len } => {
+                if let Some(d) = file_mut(&mut img, &names, *file) {
+                    let end = (*off + *len).min(d.len());
+                    for b in d[(*off).min(end)..end].iter_mut() {
+                        *b = 0;
+                    }
+                }
+            }
+            DamageOp::Bytes { file, off, data } => {
+                if let Some(d) = file_mut(&mut img, &names, *file) {
+                    let end = (*off + data.len()).min(d.len());
+                    if *off < end {
+                        d[*off..end].copy_from_slice(&data[..end - *off]);
+                    }
+                }
+            }
+            DamageOp::Truncate { file, len } => {
+                if let Some(d) = file_mut(&mut img, &names, *file) {
+                    d.truncate(*len);
+                }
+            }
+            DamageOp::Remove { file } => {
+                if let Some(n) = names.get(*file) {
+                    img.remove(n);
+                }
+            }
+            DamageOp::Duplicate { file, as_number } => {
+                if let Some(n) = names.get(*file) {
+                    if let Some(node) = img.get(n).cloned() {
+                        img.entry(wal_name(*as_number)).or_insert(node);
+                    }
+                }
+            }
+            DamageOp::SwapBlocks { file_a, block_a, file_b, block_b } => {
+                let get = |img: &Image, f: usize, b: usize| -> Option<Vec<u8>> {
+                    let n = names.get(f)?;
+                    if let Node::File(d) = img.get(n)? {
+                        if (b + 1) * BLOCK <= d.len() {
+                            return Some(d[b * BLOCK..(b + 1) * BLOCK].to_vec());
+                        }
+                    }
+                    None
+                };
+                if let (Some(a), Some(b)) = (get(&img, *file_a, *block_a), get(&img, *file_b, *block_b)) {
+                    if let Some(d) = file_mut(&mut img, &names, *file_a) {
+                        d[block_a * BLOCK..(block_a + 1) * BLOCK].copy_from_slice(&b);
+                    }
+                    if let Some(d) = file_mut(&mut img, &names, *file_b) {
+                        d[block_b * BLOCK..(block_b + 1) * BLOCK].copy_from_slice(&a);
+                    }
+                }
+            }
+            DamageOp::SwapFiles { file_a, file_b } => {
+                if let (Some(a), Some(b)) = (names.get(*file_a), names.get(*file_b)) {
+                    if a != b {
+                        let na = img.remove(a);
+                        let nb = img.remove(b);
+                        if let (Some(na), Some(nb)) = (na, nb) {
+                            img.insert(a.clone(), nb);
+                            img.insert(b.clone(), na);
+                        }
+                    }
+                }
+            }
+            DamageOp::AppendGarbage { file, len, seed } => {
+                if let Some(d) = file_mut(&mut img, &names, *file) {
+                    let mut rng = Rng::new(*seed);
+                    for _ in 0..*len {
+                        d.push(rng.next_u64() as u8);
+                    }
+                }
+            }
+            DamageOp::AddEntry { name, kind, len, seed } => {
+                let node = match kind {
+                    0 => Node::Dir,
+                    1 => Node::Symlink,
+                    _ => {
+                        let mut rng = Rng::new(*seed);
+                        Node::File(Rc::new((0..*len).map(|_| rng.next_u64() as u8).collect()))
+                    }
+                };
+                img.entry(name.clone()).or_insert(node);
+            }
+        }
+    }
+    img
+}
+
+// ------------------------------------------------------------------ generators
+
+/// One in-place overwrite aimed with the parser's layout (C08).
+pub fn aimed_overwrite(p: &Parsed, image: &Image, rng: &mut Rng) -> DamageOp {
+    let nfiles = p.files.len().max(1);
+    let file_len = |f: usize| -> usize {
+        p.files.get(f).and_then(|n| image.get(n)).map(|n| if let Node::File(d) = n { d.len() } else { 0 }).unwrap_or(0)
+    };
+    let (file, off) = if p.frames.is_empty() || rng.chance(3, 10) {
+        let f = rng.usize_below(nfiles);
+        (f, rng.usize_below(file_len(f).max(1)))
+    } else {
+        let fr = rng.pick(&p.frames).clone();
+        let within = match rng.below(12) {
+            0 | 1 => rng.usize_below(4),             // crc
+            2 | 3 => 4 + rng.usize_below(2),         // len (not covered by the crc)
+            4 => 6,                                  // type
+            5 => HDR,                                // first payload byte
+            6 => HDR + fr.len.saturating_sub(1),     // last payload byte
+            7 => HDR + rng.usize_below(fr.len.max(1).min(11)), // entry header fields
+            8 => HDR + 11 + rng.usize_below(fr.len.max(12) - 11), // name / inner batch fields
+            9 => HDR + fr.len + rng.usize_below(8),  // just after the frame (next header / padding)
+            _ => HDR + rng.usize_below(fr.len.max(1)),
+        };
+        let mut off = fr.off + within;
+        if rng.chance(1, 6) {
+            // around block / file boundaries
+            let edge = (fr.off / BLOCK + 1) * BLOCK;
+            off = (edge + rng.usize_below(16)).saturating_sub(8);
+        }
+        (fr.file, off.min(file_len(fr.file).saturating_sub(1)))
+    };
+    match rng.below(10) {
+        0..=2 => DamageOp::Flip { file, off, bit: rng.below(8) as u8 },
+        3 => DamageOp::Garbage { file, off, len: 1, seed: rng.next_u64() },
+        4 | 5 => DamageOp::Garbage { file, off, len: 2 + rng.usize_below(63), seed: rng.next_u64() },
+        6 => DamageOp::Zero { file, off, len: 2 + rng.usize_below(63) },
+        7 => {
+            let b = off / BLOCK * BLOCK;
+            if rng.chance(1, 2) { DamageOp::Garbage { file, off: b, len: BLOCK, seed: rng.next_u64() } } else { DamageOp::Zero { file, off: b, len: BLOCK } }
+        }
+        8 => DamageOp::Zero { file, off, len: 1 },
+        _ => {
+            let len = BLOCK + rng.usize_below(2 * BLOCK);
+            if rng.chance(1, 2) { DamageOp::Garbage { file, off, len, seed: rng.next_u64() } } else { DamageOp::Zero { file, off, len } }
+        }
+    }
+}
+
+/// The six single-frame payload/CRC alterations of C09 (variant 0..6).
+pub fn frame_payload_damage(p: &Parsed, frame: usize, variant: u8, rng: &mut Rng) -> Option<DamageOp> {
+    let fr = p.frames.get(frame)?;
+    let file = fr.file;
+    Some(match variant {
+        0 => DamageOp::Flip { file, off: fr.off + rng.usize_below(4), bit: rng.below(8) as u8 },
+        1 if fr.len > 0 => DamageOp::Flip { file, off: fr.off + HDR, bit: rng.below(8) as u8 },
+        2 if fr.len > 0 => DamageOp::Flip { file, off: fr.off + HDR + fr.len - 1, bit: rng.below(8) as u8 },
+        3 if fr.len > 0 => DamageOp::Flip { file, off: fr.off + HDR + rng.usize_below(fr.len), bit: rng.below(8) as u8 },
+        4 if fr.len > 0 => DamageOp::Garbage { file, off: fr.off + HDR, len: fr.len, seed: rng.next_u64() | 1 },
+        5 if fr.len > 0 => DamageOp::Zero { file, off: fr.off + HDR, len: fr.len },
+        // empty payload: only the checksum can be altered
+        _ => DamageOp::Flip { file, off: fr.off + rng.usize_below(4), bit: rng.below(8) as u8 },
+    })
+}
+
+/// Header damage of one frame (len, type, crc) for C12.
+pub fn frame_header_damage(p: &Parsed, frame: usize, variant: u8, rng: &mut Rng) -> Option<DamageOp> {
+    let fr = p.frames.get(frame)?;
+    let file = fr.file;
+    Some(match variant % 4 {
+        0 => DamageOp::Flip { file, off: fr.off + 4 + rng.usize_below(2), bit: rng.below(8) as u8 },
+        1 => DamageOp::Flip { file, off: fr.off + 6, bit: rng.below(3) as u8 },
+        2 => DamageOp::Garbage { file, off: fr.off, len: HDR, seed: rng.next_u64() },
+        _ => DamageOp::Zero { file, off: fr.off, len: HDR },
+    })
+}
+
+/// Structural damage for C10 class (a).
+pub fn structural_damage(p: &Parsed, image: &Image, rng: &mut Rng) -> DamageOp {
+    let nfiles = p.files.len().max(1);
+    let file = rng.usize_below(nfiles);
+    let next_number = 50 + rng.below(1000);
+    match rng.below(14) {
+        0 => DamageOp::Truncate { file, len: *rng.pick(&[0usize, 1, 6, 7, 100, BLOCK - 1, BLOCK, BLOCK + 1, 2 * BLOCK + 17, FILE_BYTES - 1]) },
+        1 => DamageOp::Truncate { file, len: rng.usize_below(FILE_BYTES) },
+        2 => DamageOp::Remove { file },
+        3 => DamageOp::Remove { file: if rng.chance(1, 2) { 0 } else { nfiles - 1 } },
+        4 => DamageOp::Duplicate { file, as_number: next_number },
+        5 => DamageOp::Duplicate { file, as_number: rng.below(nfiles as u64 + 2) },
+        6 => DamageOp::SwapBlocks { file_a: file, block_a: rng.usize_below(4), file_b: rng.usize_below(nfiles), block_b: rng.usize_below(4) },
+        7 => DamageOp::SwapFiles { file_a: file, file_b: rng.usize_below(nfiles) },
+        8 => DamageOp::AppendGarbage { file, len: *rng.pick(&[1usize, 7, 100, BLOCK, BLOCK + 5]), seed: rng.next_u64() },
+        9 => DamageOp::AddEntry { name: rng.pick(&["wal-0000000000000000000", "wal-000000000000000000001", "lost+found", "wal-00000000000000000abc", ".wal-00000000000000000001"]).to_string(), kind: rng.below(3) as u8, len: rng.usize_below(300), seed: rng.next_u64() },
+        10 => DamageOp::AddEntry { name: wal_name(next_number), kind: rng.below(2) as u8, len: 0, seed: 0 },
+        11 => DamageOp::AddEntry { name: wal_name(*rng.pick(&[u64::MAX, u64::MAX - 1, 0, 1 << 63])), kind: 2, len: *rng.pick(&[0usize, 5, BLOCK, FILE_BYTES]), seed: rng.next_u64() },
+        _ => aimed_overwrite(p, image, rng),
+    }
+}
+
+/// Raw images for C10 classes (b) PRNG bytes / shuffled valid frames and (c) CRC-valid adversarial entries.
+pub fn raw_image(seed: u64, class: u8) -> Image {
+    let mut rng = Rng::new(seed);
+    let mut image = Image::new();
+    match class {
+        0 => {
+            // PRNG bytes, odd lengths
+            let n = 1 + rng.usize_below(3);
+            for i in 0..n {
+                let len = *rng.pick(&[0usize, 1, 6, 7, 8, BLOCK - 1, BLOCK, BLOCK + 1, 2 * BLOCK, FILE_BYTES, FILE_BYTES + 9]);
+                let zero_rate = rng.below(4);
+                let data: Vec<u8> = (0..len).map(|_| if rng.below(4) < zero_rate { 0 } else { rng.next_u64() as u8 }).collect();
+                image.insert(wal_name(i as u64 * (1 + rng.below(3))), Node::File(Rc::new(data)));
+            }
+        }
+        1 => {
+            // valid frames in PRNG order (types and lengths random, CRC valid)
+            let mut b = WalBuilder::new();
+            let n = 1 + rng.usize_below(200);
+            for _ in 0..n {
+                let ftype = 1 + rng.below(4) as u8;
+                let max = b.max_payload();
+                let len = match rng.below(4) { 0 => 0, 1 => rng.usize_below(40.min(max + 1)), 2 => max, _ => rng.usize_below(max + 1) };
+                let payload: Vec<u8> = if rng.chance(1, 2) {
+                    let q = format!("q{}", rng.below(3));
+                    let mut e = encode_entry(1 + rng.below(4) as u8, rng.below(20), q.as_bytes(), &[]);
+                    e.resize(len.max(e.len()).min(max), 0);
+                    e.truncate(len);
+                    e
+                } else {
+                    (0..len).map(|_| rng.next_u64() as u8).collect()
+                };
+                b.raw_frame(ftype, &payload, None);
+            }
+            image = b.into_image(rng.below(3));
+        }
+        _ => {
+            // structure-aware forgery: CRC-valid frames, adversarial entry bytes
+            let mut b = WalBuilder::new();
+            let n = 1 + rng.usize_below(12);
+            let big = [u64::MAX, u64::MAX - 1, 1 << 63, (1 << 62) + 5, 0, 1, 7];
+            for _ in 0..n {
+                let q = format!("q{}", rng.below(3));
+                match rng.below(14) {
+                    0 => b.entry(&encode_entry(9, 3, q.as_bytes(), &[])), // unknown record type
+                    1 => b.entry(&encode_entry(2, *rng.pick(&big), q.as_bytes(), &[])),
+                    2 => b.entry(&encode_entry(1, *rng.pick(&big), q.as_bytes(), &[])),
+                    3 => b.entry(&encode_entry(3, *rng.pick(&big), q.as_bytes(), &[])),
+                    4 => {
+                        let p0 = *rng.pick(&big);
+                        let payload = vec![1u8; rng.usize_below(50)];
+                        b.entry(&encode_entry(4, p0, q.as_bytes(), &encode_batch(&[(p0, &payload[..])])));
+                    }
+                    5 => {
+                        // queue_len beyond body
+                        let mut e = encode_entry(4, 0, q.as_bytes(), &[]);
+                        e[9] = 0xFF;
+                        e[10] = 0xFF;
+                        b.entry(&e);
+                    }
+                    6 => b.entry(&encode_entry(2, 0, &[0xFF, 0xFE, 0x80], &[])), // non-UTF-8 name
+                    7 => {
+                        // inner batch length past the end
+                        let mut body = encode_batch(&[(0, &[1u8, 2, 3][..])]);
+                        body[8..12].copy_from_slice(&u32::MAX.to_le_bytes());
+                        b.entry(&encode_entry(4, 0, q.as_bytes(), &body));
+                    }
+                    8 => {
+                        // decreasing positions inside a batch / across entries
+                        let body = encode_batch(&[(5, &[1u8][..]), (3, &[2u8][..]), (3, &[3u8][..])]);
+                        b.entry(&encode_entry(4, 5, q.as_bytes(), &body));
+                    }
+                    9 => {
+                        // First without Last, then something else
+                        b.raw_frame(2, &encode_entry(4, 0, q.as_bytes(), &[])[..], None);
+                    }
+                    10 => b.raw_frame(4, &[1, 2, 3], None), // Last without First
+                    11 => {
+                        for _ in 0..2000 {
+                            b.raw_frame(1, &[], None); // empty Full frames
+                        }
+                    }
+                    12 => {
+                        let payload = vec![7u8; 10 + rng.usize_below(100)];
+                        let p0 = rng.below(10);
+                        b.entry(&encode_entry(4, p0, q.as_bytes(), &encode_batch(&[(p0, &payload[..]), (p0 + 1, &payload[..1])])));
+                    }
+                    _ => b.entry(&encode_entry(4, 0, q.as_bytes(), &[1, 2, 3, 4, 5])), // truncated inner header
+                }
+            }
+            image = b.into_image(*rng.pick(&[0u64, 0, 5, u64::MAX - 3]));
+        }
+    }
+    image
+}
+
+// ------------------------------------------------------------------ oracles
+
+/// A[queue] = every (position, payload) ever successfully appended to that queue name.
+pub fn appended_sets(d: &Driver) -> BTreeMap<String, BTreeSet<Rec>> {
+    let mut a: BTreeMap<String, BTreeSet<Rec>> = BTreeMap::new();
+    for s in &d.steps {
+        if let (Op::Append { q, lens, uid, .. }, Outcome::Appended { last: Some(last), .. }) = (&s.op, &s.expected) {
+            let first = last + 1 - lens.len() as u64;
+            let set = a.entry(d.names[*q].clone()).or_default();
+            for (k, &l) in lens.iter().enumerate() {
+                set.insert(Rec::of(first + k as u64, &crate::model::payload(*uid, k as u32, l as usize)));
+            }
+        }
+    }
+    a
+}
+
+pub fn c08_oracle(a: &BTreeMap<String, BTreeSet<Rec>>, obs: &Obs) -> Option<(String, String)> {
+    for (name, oq) in &obs.queues {
+        let set = a.get(name);
+        let mut prev: Option<u64> = None;
+        for r in &oq.recs {
+            if !set.map(|s| s.contains(r)).unwrap_or(false) {
+                return Some(("invented-record".into(), format!("queue (name {} B) returned a record at position {} ({} B) that no append to this queue ever wrote", name.len(), r.pos, r.len)));
+            }
+            if prev.map(|p| r.pos <= p).unwrap_or(false) {
+                return Some(("positions-not-increasing".into(), format!("queue (name {} B): position {} follows {}", name.len(), r.pos, prev.unwrap())));
+            }
+            prev = Some(r.pos);
+        }
+    }
+    None
+}
+
+/// Every retained record whose append entry is not the damaged one must be recovered intact, in order.
+pub fn c09_oracle(d: &Driver, damaged: &EntryKind, obs: &Obs) -> Option<(String, String)> {
+    let hit: BTreeSet<(String, Rec)> = match damaged {
+        EntryKind::Append { queue, recs, .. } => recs.iter().map(|r| (queue.clone(), *r)).collect(),
+        _ => BTreeSet::new(),
+    };
+    for (name, mq) in &d.model.queues {
+        let must: Vec<Rec> = mq.recs.iter().filter(|r| !hit.contains(&(name.clone(), **r))).copied().collect();
+        if must.is_empty() {
+            continue;
+        }
+        let Some(oq) = obs.queues.get(name) else {
+            return Some(("retained-record-lost".into(), format!("queue (name {} B) with {} retained records whose append was not hit is missing after open", name.len(), must.len())));
+        };
+        let got: Vec<Rec> = oq.recs.iter().filter(|r| must.binary_search_by_key(&r.pos, |x| x.pos).is_ok()).copied().collect();
+        if got != must {
+            let missing = must.iter().find(|r| !oq.recs.contains(r)).map(|r| r.pos);
+            return Some(("retained-record-lost".into(), format!("queue (name {} B): retained record at position {:?} was not recovered intact although its append entry was not damaged ({} of {} recovered)", name.len(), missing, got.iter().filter(|r| must.contains(r)).count(), must.len())));
+        }
+    }
+    None
+}
+
+pub struct DamageEval {
+    pub failures: Vec<Failure>,
+    pub open_ok: bool,
+    pub open_err: Option<OpenFail>,
+    pub peak_alloc: usize,
+    pub image_bytes: usize,
+}
+
+fn fail(prop: &'static str, clause: &str, idx: usize, detail: String) -> Failure {
+    Failure { prop, clause: clause.to_string(), op_index: idx, detail }
+}
+
+/// Opens a (damaged) image and applies the oracle of `prop`.
+pub fn judge(prop: &str, d: Option<&Driver>, names: &[String], policy: Policy, knobs: &crate::model::Knobs, image: &Image, damaged_entry: Option<&EntryKind>, what: &str) -> DamageEval {
+    let image_bytes: usize = image.values().map(|n| if let Node::File(d) = n { d.len() } else { 0 }).sum();
+    let idx = d.map(|d| d.steps.len()).unwrap_or(0);
+    crate::alloc::reset_peak();
+    let base = crate::alloc::current();
+    let res = recover(image, names, policy, knobs);
+    let peak_alloc = crate::alloc::peak().saturating_sub(base);
+    let mut ev = DamageEval { failures: Vec::new(), open_ok: false, open_err: None, peak_alloc, image_bytes };
+    // C10 clauses apply whatever the property (but are reported under C10 only)
+    match &res {
+        Err((OpenFail::Panic(m), _)) => ev.failures.push(fail("C10", "panic", idx, format!("{what}: open or a read accessor panicked: {m}"))),
+        Err((OpenFail::Hang, _)) => ev.failures.push(fail("C10", "hang", idx, format!("{what}: open did not terminate within the file-system step budget"))),
+        _ => {}
+    }
+    if peak_alloc > 16 * image_bytes + (1 << 20) {
+        ev.failures.push(fail("C10", "unbounded-allocation", idx, format!("{what}: open allocated {} bytes at peak for an image of {} bytes", peak_alloc, image_bytes)));
+    }
+    match res {
+        Err((e, _)) => {
+            if prop == "C09" {
+                ev.failures.push(fail("C09", "open-failed", idx, format!("{what}: {}", open_fail_text(&e))));
+            }
+            ev.open_err = Some(e);
+        }
+        Ok((mut w, obs)) => {
+            ev.open_ok = true;
+            if let Some(d) = d {
+                match prop {
+                    "C08" => {
+                        if let Some((clause, msg)) = c08_oracle(&appended_sets(d), &obs) {
+                            ev.failures.push(fail("C08", &clause, idx, format!("{what}: {msg}")));
+                        }
+                    }
+                    "C09" => {
+                        let nothing = EntryKind::Undecodable;
+                        if let Some((clause, msg)) = c09_oracle(d, damaged_entry.unwrap_or(&nothing), &obs) {
+                            ev.failures.push(fail("C09", &clause, idx, format!("{what}: {msg}")));
+                        }
+                    }
+                    "C12" => {
+                        if let Some(msg) = batch_atomicity(d, d.steps.len(), &obs) {
+                            ev.failures.push(fail("C12", "batch-torn-by-damage", idx, format!("{what}: {msg}")));
+                        }
+                    }
+                    "C16" => {}
+                    _ => {}
+                }
+            }
+            if prop == "C10" {
+                // the read accessors of the returned log, incl. range probes, must not panic
+                let qnames: Vec<String> = obs.queues.keys().cloned().collect();
+                let r = w.with_log(|log| {
+                    for q in &qnames {
+                        for (lo, hi) in [(0u64, u64::MAX), (u64::MAX, u64::MAX), (5, 3), (u64::MAX - 1, 0)] {
+                            let _ = log.range(q, lo..hi).map(|it| it.count());
+                            let _ = log.range(q, lo..=hi).map(|it| it.count());
+                            let _ = log.range(q, (std::ops::Bound::Excluded(lo), std::ops::Bound::Unbounded)).map(|it| it.count());
+                        }
+                    }
+                    let _ = log.resource_usage();
+                    let _ = log.summary();
+                });
+                if let Err(m) = r {
+                    ev.failures.push(fail("C10", "accessor-panic", idx, format!("{what}: a read accessor of the returned log panicked: {m}")));
+                }
+            }
+        }
+    }
+    ev
+}
+
+/// Image left by the cleanly dropped history + its parse.
+pub fn base_image(case: &Case) -> Option<(Driver, Image, Parsed)> {
+    let mut d = crate::fault::eval_hist(case);
+    if !d.conformance_ok() {
+        return None;
+    }
+    d.world.close();
+    let image = d.world.image();
+    let parsed = parse(&image);
+    Some((d, image, parsed))
+}
+
+/// Entry hit by a damage op (by byte range), if it is confined to one frame.
+pub fn entry_hit<'a>(p: &'a Parsed, op: &DamageOp) -> Option<&'a EntryKind> {
+    let (file, off) = match op {
+        DamageOp::Flip { file, off, .. } | DamageOp::Garbage { file, off, .. } | DamageOp::Zero { file, off, .. } => (*file, *off),
+        _ => return None,
+    };
+    let fr = p.frames.iter().find(|f| f.file == file && off >= f.off && off < f.off + HDR + f.len)?;
+    p.entries.get(fr.entry).map(|e| &e.kind)
+}
+
+pub fn evaluate_damage(prop: &str, case: &Case, fault: &Fault) -> Vec<Failure> {
+    match fault {
+        Fault::RawImage { seed, class } => {
+            let image = raw_image(*seed, *class);
+            let names = case.name_strings();
+            let ev = judge(prop, None, &names, case.policy, &case.knobs, &image, None, &format!("raw image class {class} seed {seed}"));
+            ev.failures.into_iter().filter(|f| f.prop == prop).collect()
+        }
+        Fault::Damage { ops } => {
+            let Some((d, image, parsed)) = base_image(case) else { return Vec::new() };
+            let damaged = apply_damage(&image, ops);
+            let hit = if ops.len() == 1 { entry_hit(&parsed, &ops[0]).cloned() } else { None };
+            let policy = d.world.policy;
+            let ev = judge(prop, Some(&d), &d.names, policy, &case.knobs, &damaged, hit.as_ref(), &format!("damage {:?}", ops));
+            ev.failures.into_iter().filter(|f| f.prop == prop).collect()
+        }
+        _ => Vec::new(),
+    }
 }
